@@ -11,7 +11,7 @@ PROP = "C16"
 USE_CACHE = ["omitted", "true", "false"]
 STRUCT = ["omitted", "true", "false"]
 EXTS = ["omitted", "rs", "rs+x", "x"]      # (an explicit empty list is an error exit, below)
-LOCK = ["absent", "valid_ahead", "corrupt", "empty", "out_of_range", "negative", "float"]
+LOCK = ["absent", "valid_ahead", "corrupt", "empty", "out_of_range", "negative", "float", "conflict_markers", "line_plus_junk", "nested_key"]
 MODE = ["check", "edit"]
 TREE = ["missing", "none_missing"]
 LOCKVAL = 1000
@@ -33,7 +33,11 @@ LOCK_TEXT = {"absent": None, "valid_ahead": core.lock_text(LOCKVAL), "corrupt": 
              # numbers that are not a u32: the lock cannot be parsed and must be ignored
              "out_of_range": core.LOCK_HEADER + "next_reference_id: 4294967303\n",
              "negative": core.LOCK_HEADER + "next_reference_id: -3\n",
-             "float": core.LOCK_HEADER + "next_reference_id: 12.5\n"}
+             "float": core.LOCK_HEADER + "next_reference_id: 12.5\n",
+             # unparsable as a whole although a well-formed-looking line is in there
+             "conflict_markers": core.LOCK_HEADER + "<<<<<<< HEAD\nnext_reference_id: 2\n=======\nnext_reference_id: 2000\n>>>>>>> feature\n",
+             "line_plus_junk": core.LOCK_HEADER + "next_reference_id: 2\n}}} not yaml {{{ : :\n\t- [\n",
+             "nested_key": core.LOCK_HEADER + "cache:\n  next_reference_id: 2\n"}
 
 
 def expected(p):
